@@ -170,6 +170,7 @@ def wellformed(repo: Repo, rep: "Report", only_touched: bool = False) -> None:
                 t = None
             return t.node if t is not None and getattr(t, "is_class", False) else None
         una = W.undefined_attributes(cls_, _resolve) if cls_ else []
+        una = list(una) + [(ln, "<type test>", f"{nm}|{txt}") for ln, nm, txt in W.misdirected_type_tests(m.src)]
         cache_[rel] = (und, bad, unb, una)
         rep.ob(rid, f"{rel}::<module>", f"{rel}: names resolve, locals assigned on every path to their reads, attributes defined, cell indices in range",
                not und and not bad and not unb and not una, _wf_detail(und, bad, unb, una))
@@ -178,7 +179,9 @@ def wellformed(repo: Repo, rep: "Report", only_touched: bool = False) -> None:
 def _wf_detail(und, bad, unb, una) -> str:
     return "; ".join(
         [f"line {ln}: `self.{a}` is read in class {c.split('@')[0]} but neither the class nor any of its bases assigns or defines it "
-         f"(AttributeError when reached: the assignment in __init__ is gone)" for ln, c, a in una] +
+         f"(AttributeError when reached: the assignment in __init__ is gone)" for ln, c, a in una if c != "<type test>"] +
+        [f"line {ln}: `{a.split('|')[1]}` tests `{a.split('|')[0]}`, which neither branch uses, while the branches convert / select another value: the "
+         f"representation of that value is decided by looking at the wrong variable" for ln, c, a in una if c == "<type test>"] +
         [f"line {ln}: local `{nm}` of {fn_}() is read on a path on which no assignment to it has run (UnboundLocalError; the repository's own "
          f"type-check configuration, pyright strict, rejects possibly-unbound locals)" for ln, nm, fn_ in unb] +
         [f"line {ln}: `{nm}` is loaded in {sc}() but bound in no enclosing scope, not at module level and not a builtin "
